@@ -196,10 +196,10 @@ def run(chk, replay=None):
     Lib.get()
     chk.assumptions += ["aliasing means the same pointer and the same stride (the property's domain); partial overlaps are not generated"]
     # 1. model checking with the aliasing dimension
-    for mod, cfg, role in (("LimbLoops", "LimbLoops_quick.cfg", "limb loops (5 aliasing patterns)"),
+    for mod, cfg, role in (("LimbLoops", ("LimbLoops_quick.cfg" if quick else "LimbLoops_thorough.cfg"), "limb loops (5 aliasing patterns)"),
                            ("Normalize", "Normalize_small.cfg", "normalisation (alias)"),
                            ("RingMaps", "RingMaps_small.cfg", "in-place walks"),
-                           ("Pointwise", "Pointwise_quick.cfg", "pointwise kernels (5 aliasing patterns)")):
+                           ("Pointwise", ("Pointwise_quick.cfg" if quick else "Pointwise_thorough.cfg"), "pointwise kernels (5 aliasing patterns)")):
         r = run_tlc(mod, cfg, workers=16, coverage=True, name="c13-" + mod, timeout=1800)
         tlc_must_pass(r, mod)
         chk.add_tlc(r, "exhaustive: " + role)
